@@ -9,14 +9,71 @@ ROOT = os.path.dirname(os.path.dirname(os.path.abspath(__file__)))
 
 TRUSTED = "reference models in vf/ref (bit-serial CRCs, frame/readout/COSEM builders), CPython 3.12, construct 2.10.70; workload generators seeded by VERIF_SEED"
 
+def _c(category, text, note, technique, sec):
+    return dict(category=category, text=text, design_ref=f"DESIGN.md section 4, {sec}", note=note, technique=technique)
+
+
 CHECKS = {
-    "C03": dict(
-        category="exploration",
-        text="Every 16-bit register state x every octet of the FCS step function is executed through the public API (thorough: all 2^24, quick: 2^18 + all 2^16 residue states) and compared with a bit-serial RFC 1662 model; random strings/windows/trailers for the two entry points. Exhaustive execution of the finite step domain is as strong as runtime observation gets for this property.",
-        design_ref="DESIGN.md section 4, C03",
-        note="trusts vf/ref/fcs16.py (bit-serial definition, checked against the published vector in setup)",
-        technique="runtime differential monitoring against a bit-serial reference model; exhaustive execution of the step-function domain",
-    ),
+    "C01": _c("exploration",
+              "Every frame HdlcFrameReader.read() returns on generated streams (well-formed, bit-flipped, truncated incl. right after the HCS, over-long, wrong length field with recomputed checks, noise) under all 4 configurations and many splittings is judged by three oracles: two-sided validity vs. a reference (length field + bit-serial FCS), accessor values vs. a reference field split, and embedding of the returned octets in the raw input (in order, use-once, un-stuffed). Sampling of an unbounded input space: 'held on K executions'.",
+              "trusts vf/ref/hdlc_ref.py and vf/ref/fcs16.py", "runtime monitoring: boundary recorder + executable reference model + embedding oracle over generated hostile streams", "C01"),
+    "C02": _c("exploration",
+              "Generator-side record of sent frames (unique ids, addresses of 1-4 octets, 0..2047 octets, flag/escape dense payloads) compared with the list returned over the whole read() call sequence, for many splittings incl. ALL 2^(L-1) splittings of short streams, inside the domain the statement carves out for non-stuffing readers.",
+              "trusts the frame builder vf/ref/hdlc_ref.build", "runtime monitoring: exactly-once/in-order delivery check of sent vs. returned frames with unique ids", "C02"),
+    "C03": _c("exploration",
+              "Every 16-bit register state x every octet of the FCS step function is executed through the public API (thorough: all 2^24, quick: 2^18 + all 2^16 residue states) and compared with a bit-serial RFC 1662 model; random strings/windows/trailers for the two entry points. Exhaustive execution of the finite step domain is as strong as runtime observation gets for this property.",
+              "trusts vf/ref/fcs16.py (bit-serial definition, checked against the published vector in setup)", "runtime differential monitoring against a bit-serial reference model; exhaustive execution of the step-function domain", "C03"),
+    "C04": _c("exploration",
+              "Validity verdicts of DataReadout objects (built from bytes and returned by the reader under splittings) for strict readouts and their variants (checksum text 0000/0001/FFFF/+-1/one bit/random, lower and mixed case, removed; every single-bit flip of small readouts; readouts searched to have a true CRC of 0x0000) against a bit-serial CRC-16/ARC and a liberal ident recogniser (soundness) / strict generator (completeness).",
+              "trusts vf/ref/crc16.py and vf/ref/p1_ref.py", "runtime monitoring: validity verdicts vs. reference CRC model over generated and mutated readouts", "C04"),
+    "C05": _c("exploration",
+              "Streams of 2..400 back-to-back readouts with unique ids (up to ~600 KiB), optional leading readout tail, fed under fixed chunk sizes, random cuts and template-aligned chunk sizes that never put a call boundary between two readouts; returned list must equal sent list.",
+              "trusts the readout builder vf/ref/p1_ref.py", "runtime monitoring: exactly-once/in-order delivery check over long call histories", "C05"),
+    "C06": _c("exploration",
+              "Metamorphic comparison of the real reader with itself: one-call result vs. every other splitting, exhaustively for all streams up to a small length over two reduced alphabets x 4 configurations (with a clean two-frame suffix that makes wrongly carried state visible), plus random flag/escape-dense, uniform and corrupted-frame streams.",
+              "no reference model needed; assumes only that None and b'' payloads are the same observation", "runtime metamorphic monitoring (same stream, different chunkings), exhaustive over short streams", "C06"),
+    "C07": _c("exploration",
+              "Aidon lists encoded by an independent COSEM byte emitter from a Python description (documented layouts and random subsets, registers over the full range of i16/u16/u32 with boundaries, scaler -3..3); expected dictionary from a frozen name table and exact Fraction arithmetic; both decoder entry points compared key by key, frame vs. body agreement.",
+              "trusts vf/ref/cosem_enc.py (rebuilds vendor captures byte for byte in setup) and vf/ref/names.py", "runtime differential monitoring of the decoders against an independent encoder + exact arithmetic", "C07"),
+    "C08": _c("exploration",
+              "Kaifa positional layouts (1/9/13/14/18) and the OBIS-tagged Swedish layout with full-range u32 registers, strings of length 0..30 incl. 12 (date-time-or-text choice), APDU date-time tagged/untagged; expected fields from frozen positional tables, reg/1000 and reg/10 by true division.",
+              "trusts vf/ref/cosem_enc.py and the frozen layouts in vf/ref/names.py", "runtime differential monitoring of the decoders against an independent encoder", "C08"),
+    "C09": _c("exploration",
+              "Kamstrup lists (10-second/hourly/1-/3-phase/Swedish) with 0..9 null octets after any element, CT and non-CT meter types, full-range registers; currents compared within 2^-50 relative of reg/100 (reg/1000 for CT), energy == reg*10, frame clock = APDU date-time.",
+              "trusts vf/ref/cosem_enc.py and vf/ref/names.py; current tolerance 2^-50 relative (reg * 10**-2 is one ulp from reg/100)", "runtime differential monitoring of the decoders against an independent encoder", "C09"),
+    "C10": _c("exploration",
+              "12-octet date-times in each of the 8 syntactic places a decoder accepts one; (status, deviation) pairs enumerated systematically (all 256 status octets; thorough all 256 x 1442 pairs), calendar/time boundaries; decoded value compared field-wise (civil fields, microseconds, utcoffset or none).",
+              "trusts vf/ref/cosem_enc.datetime12", "runtime monitoring: field-wise comparison of decoded date-times with the generated ones", "C10"),
+    "C11": _c("exploration",
+              "P1 data blocks emitted from the IEC 62056-21 grammar by a generator that records every address/value/unit; real parser and the three decode entry points + AutoDecoder compared with the record (exact Fractions); complete sweep of 0.000..999.999 kW (thorough) shows the conversion error is one-sided and below one unit.",
+              "trusts vf/ref/p1_ref.py and vf/ref/names.py", "runtime monitoring against the generator's record + exhaustive value sweep of the unit conversion", "C11"),
+    "C12": _c("exploration",
+              "Model-based differential monitoring of AutoDecoder over ALL histories of length <= 2 (quick) / 3 (thorough) over a ~65-payload pool and random histories to length 30: accept sets and results of the seven individual decoders run in isolation decide what each step may return and what previous_success_decoder may name; genuine generated messages must be decoded by their own decoder with exact values; decode_message == decode_message_payload.",
+              "trusts the individual decoder functions as the definition of 'accepts' (their values are C07-C09/C11)", "runtime model-based monitoring of call histories (differential against the individual decoders), exhaustive over short histories", "C12"),
+    "C13": _c("exploration",
+              "Queue contents after sequences of data_received() calls compared with a model of the selection rule evaluated over shadow readers, and for clean streams with the generator's own list of payloads; 4 candidate lists x both protocol classes x many splittings; a real socketpair transport with recorded delivered chunks.",
+              "assumes the readers are deterministic functions of the chunk sequence (their correctness is C01-C06)", "runtime monitoring of the output queue against an executable model of the selection rule", "C13"),
+    "C14": _c("exploration",
+              "Exception recorder around read(), the four message accessors and data_received() for both readers/protocols on structural-character-biased noise under splittings; afterwards a clean suffix on the same instance must be delivered per C16.",
+              "'raise' = any Exception subclass escaping the call", "runtime monitoring: exception recorder at the API boundary under hostile input", "C14"),
+    "C15": _c("exploration",
+              "Every AutoDecoder call on random bytes, truncations/mutations of genuine messages, FF date-times, unbalanced ASCII fragments and a size sweep, in all 8 remembered-decoder states, runs under (a) an exception monitor, (b) a logical step budget (sys.monitoring PY_START/JUMP/BRANCH <= 50000 + 2000 x len) that decides non-termination without a clock, (c) a tracemalloc bound.",
+              "polynomial bound decided as a linear step budget with >50x headroom over genuine messages", "runtime monitoring with a sys.monitoring logical step budget, exception monitor and tracemalloc", "C15"),
+    "C16": _c("exploration",
+              "Noise prefixes (random, look-alikes, ending in 7D, truncated, abort sequences, over-long garbage, ident-like lines) + 2..40 clean messages with unique ids; the guaranteed set of the statement must be delivered valid, every clean message at most once, in order, byte-identical; returned frames must occur in the input.",
+              "an execution in which read() raised is counted and left to C14", "runtime monitoring: bounded-loss delivery oracle after injected noise", "C16"),
+    "C17": _c("fault_enumeration",
+              "On a deterministic virtual-time event loop every outcome word (ok/fail/slow ok/slow fail) up to length 4 (quick) / 5 (thorough) x 2 lifetime modes is run with close() injected at EVERY loop iteration (first/last callback; thorough: every ready-queue position) and at the midpoint of every time gap; a trace checker decides one-connection, no-attempt-while-connected, bounded reconnect progress, task bound (also over 50 and 3000 cycle storms) and the close() guarantees from the recorded event log.",
+              "CPython 3.12 BaseEventLoop semantics with a selector that never reports I/O; fake transport delivers connection_lost once via call_soon", "runtime trace checking on a virtual-time event loop with exhaustive close() injection (fault enumeration)", "C17"),
+    "C18": _c("fault_enumeration",
+              "Strategy object: all 2^14 (quick) / 2^17 (thorough) failure/reset words x 6 max_delay values, every prefix compared with the closed form; manager: all ok/fail words up to length 8/9 x lifetime patterns x configurations on the virtual loop, gaps between failure/loss and next attempt judged from the event log; the wall clock is replaced by the virtual clock and a calibration scenario verifies the substitution.",
+              "virtual clock substituted for han.meter_connection.datetime from the harness (calibrated each run)", "runtime trace checking of attempt timing on a virtual clock; exhaustive enumeration of fault words", "C18"),
+    "C19": _c("exploration",
+              "Deep size of the reader instance sampled between read() calls over 1 MiB (quick) / 16 MiB (thorough) streams of the 13 patterns named by the property x chunk sizes 1..64 KiB; absolute bound (constant + 3 x chunk) and first-half/second-half trend oracle.",
+              "deep size = sum of sys.getsizeof over gc-reachable objects from the reader", "runtime resource monitoring (deep-size walker) over long call histories", "C19"),
+    "C20": _c("exploration",
+              "All 16 presence patterns of the optional groups x boundary/random values in both syntaxes: parse, equality/hash, string comparison, C.D.E string and reduced-form round trip against the groups the generator wrote; mutation grammar for strings without digit.digit -> ValueError only.",
+              "syntax per the statement (vf/ref/obis_ref.py)", "runtime monitoring against the generator's record (grammar-based generation)", "C20"),
 }
 
 PENDING_REASON = "check not built yet in this session (work in progress; DESIGN.md section 4 describes the planned monitor)"
